@@ -48,4 +48,5 @@ def run_cluster_check(ck, prop_file, focus, nontrivial, rule, assumptions, level
             # the poller's sync plan: the real KeyspaceTracker (get_diff / set_keyspace / remove_node) against TsDiff.v / PollerPlan.v
             ck.correspondence("hx-tsdiff", "tsdiff", "hx-ec", name="tsdiff",
                               nontrivial=lambda c, r: r not in ("-", "") and ("," in r or "|" in r))
+            V.crosscheck_tsdiff(ck)
     ck.finish(level=level, rule=rule, trusted_base=TRUSTED, assumptions=assumptions)
